@@ -253,6 +253,12 @@ def gen_replay(ctx, mod, constants, depth, adapter, acfg=None, invariants=(), pr
                 total["fails"] += 1
                 ctx.violation("replay-mismatch", dict(f, module=mod, constants=constants,
                                                       acfg=repr(acfg)[:2000]))
+    if total["edges"] and total["skipped"] * 2 > total["edges"]:
+        # the replayer could not even reach most pre-states: the binding itself is broken (or an earlier, shorter edge
+        # already reported why); never count such a run as coverage
+        if not total["fails"]:
+            raise core.MachineryError("%s: %d of %d edges could not be replayed (prefix raised or pre-state mismatch)" % (
+                name, total["skipped"], total["edges"]))
     ctx.traces += total["edges"] - total["skipped"]
     ctx.evaluations += total["edges"]
     for i in range(total["distinct"]):
